@@ -15,7 +15,7 @@ CHECKS = {
         'MIR over an abstract file system whose tree shape, entry kinds, link targets, depth window and root depth are solver variables; on every '
         'path z3 decides that the reported multiset equals {entries whose nesting level is in the window, reachable through directories only}, '
         'each exactly once, with bfs depth-monotone and dfs subtree-contiguous order. Counterexamples are rebuilt on disk and run through the real binary.'
-        ' (root_options) the per-root loop of list_search_results with visit_dir summarised and 2-3 roots whose mindepth / maxdepth / archives / symlinks / traversal are all symbolic: each root is walked once with exactly its own options. Names that are not valid UTF-8 are a symbolic bit per node, consulted through the real util::canonical_path (Path::to_str / to_string_lossy by contract).',
+        ' (root_options) the per-root loop of list_search_results with visit_dir summarised and 2-3 roots whose mindepth / maxdepth / archives / symlinks / traversal are all symbolic: each root is walked once with exactly its own options. Names that are not valid UTF-8 are a symbolic bit per node, consulted through the real util::canonical_path (Path::to_str / to_string_lossy by contract). (walk/fsroot) the same walk with the root possibly the file-system root `/`, whose entries have no separator more than `/` itself (replayed on the real `/` with a shallow window).',
    note=TRUST + 'Bounds: 4 (quick) / 5 (thorough) nodes, 1 and 2 roots, window bounds 0..nodes+1, root depth 1..4. Assumed: the file-system contract models '
         '(read_dir lists children in index order; canonicalize/read_link/file_type by contract); check_file summarised as a ghost trace; '
         'special files behave like regular files; links not followed (C18); parse_roots/parse_root_options are not covered here.',
@@ -52,7 +52,7 @@ CHECKS = {
         'util::is_shebang over two symbolic bytes, util::get_line_count over <= 3 chunks with symbolic lengths / newline counts / read failures, get_sha*_file_hash with '
         'the RustCrypto hasher identified from its monomorphised type: hex(alg(whole file)), empty on failure. (extclass) is_archive..is_video with per-class one-entry '
         'lists in the default and user configuration, the user list symbolically present: lower-cased name ends with an extension of the active list, also for zip members. '
-        '(hidden_empty) is_hidden / is_empty for entries and zip members over a name table.',
+        '(hidden_empty) is_hidden / is_empty for entries and zip members over a name table. (xattrs) the real arms of has_xattrs / caps and HAS_XATTR / XATTR / HAS_CAPABILITIES / HAS_CAPABILITY over an entry with its own attribute set and, for a link, a target with another: the xattr crate by its documented contract (path functions do not dereference), File::open follows links, needs read permission and blocks on a FIFO — the value must be the entry\'s own, for every file type, readable or not, without a blocking open. (location) name / ext / path / dir / absdir / abspath of an entry walked through a linked directory, for every file type: the entry\'s own location (canonicalize resolves the last component too).',
    note=TRUST + 'Also trusted for kani/mode: Kani 0.68 / CBMC 6.11. Assumed: Metadata is a symbolic lstat record whose accessors return its fields; bytecount::count, '
         'io::copy and the digest crates by contract (the digest value itself is uninterpreted: the claim is which algorithm absorbs which bytes and how it is rendered); '
         'names from finite tables (stated in the evidence). Outside: owner-name lookup, xattrs and capabilities (syscalls / FFI), modification-time formatting, '
@@ -67,7 +67,7 @@ CHECKS = {
         'Parser::parse_order_by runs on symbolic lexems and the comparator induced by its result is decided equal to the textbook one. '
         '(clause_keys) the real lexer and the real Parser::parse on `order by E` for ten key expressions E (arithmetic, brackets, leading sign or number, function calls), with and without a '
         'WHERE clause (symbolic choice): the key is the same expression tree as `select E`. Counterexamples are replayed through the real parser and the real Criteria::cmp in a native test.'
-        ' (e2e) the real main::exec_search on query TEXT — real lexer, parser, walker, check_file, evaluator, aggregates, TopN, Criteria::cmp, ResultsWriter — over the abstract file system; stdout decoded and compared with a reference evaluation over the visited entries.',
+        ' (e2e) the real main::exec_search on query TEXT — real lexer, parser, walker, check_file, evaluator, aggregates, TopN, Criteria::cmp, ResultsWriter — over the abstract file system; stdout decoded and compared with a reference evaluation over the visited entries. The comparator for date keys runs under the calendar contract of chrono (with_year / with_month ... give None when the date does not exist) with a symbolic clock: it must not depend on the day the query is run.',
    note=TRUST + 'Assumed: T = String with byte-lexicographic Ord (model); key values as rendered by the evaluator: decimals < 1000 (signed for the arithmetic keys size - 100 / 100 - size), fixed-width dates (parse_datetime '
         'on a rendered date summarised; C13), texts from an 8-entry table; column classification read from the Variant constructor in get_field_value. '
         'Permutation / sortedness of the buffer itself is TopN (C06). Bounds: key lists <= 2 keys; ORDER BY clauses <= 3 (quick) / 4 (thorough) tokens.',
@@ -133,7 +133,7 @@ CHECKS = {
         'root is an absolute path or `.`. Path spellings are modelled (std::path equality by components, the OS resolves relative text against the cwd, opendir / '
         'canonicalize follow links), inodes are per node. z3 decides for every link graph that the walk terminates within the unrolling bound, that every entry of every '
         'directory reachable through directories and links-to-directories is reported exactly once, and that the status is 0. Counterexamples are rebuilt with real symlinks.'
-        " (links/above) links may point at the root's parent directory (one level less deep); (links/chains) chains of two links; (outside/*) the same walker with the search root an INNER node of the abstract file system (node 0 = the root's parent, the other nodes anywhere below it): links to directories outside and above the root, chains whose intermediate link lies outside — rows from outside appear exactly when a reported link (chain) leads there, every real directory once; (root_options) see C01.",
+        " (links/above) links may point at the root's parent directory (one level less deep); (links/chains) chains of two links; (outside/*) the same walker with the search root an INNER node of the abstract file system (node 0 = the root's parent, the other nodes anywhere below it): links to directories outside and above the root, chains whose intermediate link lies outside — rows from outside appear exactly when a reported link (chain) leads there, every real directory once; (root_options) see C01. (links/two-roots) a second root of the same query inside the first root's tree: nothing is listed twice.",
    note=TRUST + 'Assumed: the file-system contract above; link targets are not links themselves (chains outside the bound); targets lie inside the root tree or are dangling '
         '(targets above / outside the root — where the depth arithmetic can underflow — are outside the bound); no depth window; check_file summarised. Bounds: 4/5 nodes.',
    technique=TECH),
@@ -159,7 +159,7 @@ CHECKS = {
         'prefixes). Every path ending in a panic obligation (index, subtraction, unwrap / expect) or exceeding every loop bound derivable from the token count (no progress '
         '= hang) yields a token vector that is run through the real binary; what reproduces there (status 101 / no termination) is a violation. ArithmeticOp::calc on '
         'arbitrary operands is included for evaluation-time crashes.'
-        ' On every accepted (Ok) token vector a must-reject oracle is applied: unbalanced or mismatched brackets, dangling / unknown operator, ORDER BY position outside the select list, non-numeric LIMIT, unknown output format, no column — such a vector must be rejected (replayed: status 2 and no rows). The eval family also runs the C16 `args` / `args_all` families (every scalar function of the Function enum on ten ill-typed / empty / negative / huge arguments in the first, second and third position; std::time::Duration constructors, static regexes by contract; functions that end in unmodelled library code are listed in the evidence notes as undecided).',
+        ' On every accepted (Ok) token vector a must-reject oracle is applied: unbalanced or mismatched brackets, dangling / unknown operator, ORDER BY position outside the select list, non-numeric LIMIT, unknown output format, no column — such a vector must be rejected (replayed: status 2 and no rows). The eval family also runs the C16 `args` / `args_all` families (every scalar function of the Function enum on ten ill-typed / empty / negative / huge arguments in the first, second and third position; std::time::Duration constructors, static regexes by contract; functions that end in unmodelled library code are listed in the evidence notes as undecided). (literals) the real Searcher::conforms on column x 12 operators x literals that cannot be interpreted (boolean, date incl. digits of other scripts and signed non-numbers, number, pattern): a verdict or error_exit(2), never a panic. (e2e_bad) the whole program from MIR on malformed or uninterpretable query texts (bad rx root, LIMIT beyond the groups, brackets closed by the other kind which must be rejected with status 2).',
    note=TRUST + 'Assumed: the lexer is replaced by the symbolic lexem vector (the lexer loop over raw bytes is not covered); UserDirs::new = None. Bounds (symbolic tokens after the '
         'prefix): full alphabet 2 (quick) / 4 (thorough); select, where, tail 3 / 5; ORDER BY, GROUP BY 3 / 4; 60 s per family in the quick tier (an unexhausted length is noted '
         'in the evidence). Crashes of scalar functions on ill-typed arguments and of date / boolean literals are not covered by this check.',
@@ -170,7 +170,7 @@ CHECKS = {
         'precedence-climbing tree of the textbook; (calc) ArithmeticOp::calc on symbolic f64 / integer operands is the IEEE operation named and never panics; (cache) '
         'Searcher::get_column_expr_value with the per-row value cache and the real Expr::fmt: the value of an expression evaluated after another one into the same row map equals '
         'its value in an empty map; (minus) a leading minus negates literals and columns.'
-        ' (e2e) the real main::exec_search on query TEXT — real lexer, parser, walker, check_file, evaluator, aggregates, TopN, Criteria::cmp, ResultsWriter — over the abstract file system; stdout decoded and compared with a reference evaluation over the visited entries.',
+        ' (e2e) the real main::exec_search on query TEXT — real lexer, parser, walker, check_file, evaluator, aggregates, TopN, Criteria::cmp, ResultsWriter — over the abstract file system; stdout decoded and compared with a reference evaluation over the visited entries. (cache_literals) pairs of text-valued columns whose key texts could coincide: a quoted literal that spells a column, a function of that literal vs. of the column, one literal containing the argument separator vs. two literals.',
    note=TRUST + 'Assumed: get_field_value summarised as symbolic 16-bit integers per column; the lexer decides which characters are operators (outside); f64 % is fmod. '
         'Bounds: expressions of <= 5 (quick) / 7 (thorough) tokens; cache: ordered pairs from 8 representative expressions. Scalar function values are C16.',
    technique=TECH),
@@ -189,14 +189,13 @@ CHECKS = {
    level='translation_validation', design_ref='DESIGN.md §2.3, §5 C20', engine='relang',
    text='(translate, Engine C) for every pattern of a bounded grammar (the shapes of the property statement plus all patterns of length <= 2/3 over letters, . * ? / and '
         'metacharacters) the regex compiled by the real convert_dockerignore_glob / convert_hgignore_glob (native driver over the tree sources) is parsed into a z3 regular '
-        'language (search semantics) and z3 decides over all paths below the root whether it differs from the reference root/(dir/)* G(pattern) <anything>, G mapping ** / * / ? '
-        'to any run / run within a component / one character of a component and everything else literally. (fold, Engine B) the real matches_dockerignore_filter / '
+        'language (search semantics) and z3 decides over all paths below the root whether it differs from the tools\' documented rule for well-formed patterns: `*` / `?` within one component, `**/` zero or more directories, a match covers whole '
+        'components and everything below it, a trailing slash names a directory; hg patterns may start at any directory, docker patterns at the context root. (translate/hg-regexp) '
+        '`syntax: regexp` lines: an unrooted search below the repository top, `^` = the top. (fold, Engine B) the real matches_dockerignore_filter / '
         'matches_hgignore_filter over <= 3/4 filters with symbolic verdicts and negation flags: docker = the last matching pattern decides, hg = any match. (precedence) the '
         'head of the real list_search_results with symbolic Option<bool> root options and configuration defaults: each mechanism is applied iff option.unwrap_or(config.unwrap_or(false)).'
-        " (upstream) search_upstream_dockerignore / _hgignore from a root spelled canonically, through a link or with `..` in a small path world: the ignore file of the nearest ancestor of the root's real location, anchored at its canonical path. (gitarg) the walker with `gitignore`: libgit2's is_path_ignored (verdict symbolic) is asked once per entry about the entry's OWN path, and the rows are the entries it does not ignore.",
-   note=TRUST + 'Not covered: gitignore verdicts (one call into libgit2, FFI) — only the option precedence for git is; the structural envelope of fselect\'s ignore regexes (a pattern '
-        'applies at any depth and to everything below / after a match — e.g. `*.log` also hides `x.logs`) is taken as given, so the claim is about the translation of the pattern '
-        'text, not about full agreement with the tools; parse_hgignore / parse_dockerignore line handling (comments, blank lines, `syntax:` sections, `!`) and the upstream search '
+        " (upstream) search_upstream_dockerignore / _hgignore from a root spelled canonically, through a link or with `..` in a small path world: the ignore file of the nearest ancestor of the root's real location, anchored at its canonical path. (gitarg) the walker with `gitignore`: libgit2's is_path_ignored (verdict symbolic) is asked once per entry about the entry ITSELF by an ABSOLUTE path (libgit2 reads a relative one from the top of the work tree), and the rows are the entries it does not ignore; replayed with real git from three working directories.",
+   note=TRUST + 'Not covered: gitignore verdicts (one call into libgit2, FFI) — only the option precedence for git is; pattern texts outside the well-formed subset (empty components, `..`, a trailing `**`, character classes / alternations, which fselect takes literally); parse_hgignore / parse_dockerignore line handling (comments, blank lines, `syntax:` sections, `!`) and the upstream search '
         'for the ignore file. Pattern side enumerated, path side symbolic and unbounded.',
    technique='regex text of the real translators -> z3 RegLan equivalence (unbounded paths); MIR symbolic execution + z3 for fold and precedence'),
  'C13': dict(
@@ -205,7 +204,7 @@ CHECKS = {
         '(literal) util::datetime::parse_datetime from bb0 with DATE_REGEX.captures modelled — which optional groups are present and all six numeric fields symbolic, chrono by '
         'contract: every Ok result is [start, finish] = (h|0, m|0, s|0) .. (h|23, m|59, s|59) of the day named, start <= finish, and no field value makes it panic; (relative) '
         'today / yesterday / +N / -N under a symbolic clock denote the whole local day; (lexer_date) lexer::looks_like_date is true exactly for years 1970..2999 with month 01..12.'
-        " (captures_model) the contract model of DATE_REGEX.captures that `literal` rests on is validated natively against the tree's real regex for 48 literal shapes (day / hour / minute / second precision, both separators, 1- and 2-digit fields). File times carry a symbolic sub-second part; literals do not.",
+        " (captures_model) the contract model of DATE_REGEX.captures that `literal` rests on is validated natively against the tree's real regex for 48 literal shapes (day / hour / minute / second precision, both separators, 1- and 2-digit fields). File times carry a symbolic sub-second part; literals do not. (e2e) the real program from MIR on query texts with date literals at the four precisions, quoted and unquoted, both separators, over entries stamped on both edges of the intervals (a year boundary, sub-second parts), with chrono on concrete fields; the printed `modified` column included. (relative) also day offsets of four and more digits.",
    note=TRUST + 'Assumed: the regex crate captures what the two date regexes say (captures modelled: groups present left to right, numbers of their digit width); chrono: '
         'with_hour/minute/second -> None outside their range, Local.with_ymd_and_hms -> Single(midnight of that day) or None (calendar validity uninterpreted), local-time '
         'conversion and formatting of the `modified` column, chrono-english free-form dates and DST gaps are outside the claim.',
@@ -217,7 +216,7 @@ CHECKS = {
         'multiplier for all n, decided in integer arithmetic through an exact-double abstraction whose side condition is checked on every operation; (format) '
         'util::format_filesize from bb0 with the specifier regex captures modelled and humansize::format_size uninterpreted: for every units word (flags c / d / s before or '
         'after the unit), precision and space the option record handed to humansize (base, fixed unit, decimal places, space) and the short-unit rewrites are what the grammar denotes.'
-        ' (coerce) ten literal spellings incl. leading-dot fractions (.5k) through the real Variant::to_int / to_float. The `replace` chain after humansize is compared by its effect on every unit text of the base in question.',
+        ' (coerce) ten literal spellings incl. leading-dot fractions (.5k) through the real Variant::to_int / to_float. The `replace` chain after humansize is compared by its effect on every unit text of the base in question. Fractions of a byte (`2.0`, `1.5b`) and fractions that are not multiples of 1/1024 (n + 1/4096) are included.',
    note=TRUST + 'Bounds: n < min(2^20, 2^51 / multiplier) so that every product is an exact double (larger literals, where rounding occurs, are outside); fractions 1/2, 1/4, '
         '1/16 only. Outside: humansize itself (monotonicity and round-trip of the rendered text), the regex crate (captures modelled), Field::FormattedSize wiring.',
    technique=TECH),
@@ -227,7 +226,7 @@ CHECKS = {
         'every arm is decided equal to its documented term: LOWER/UPPER/TRIM/LTRIM/RTRIM/REPLACE/CONCAT/CONCAT_WS/LENGTH (characters)/COALESCE (first non-empty)/ABS/SQRT/LN/EXP/'
         'POWER/LOG/LEAST/GREATEST; (substr) SUBSTR on concrete ASCII and multi-byte subjects with symbolic position and length over all i32 / usize values: 1-based, negative '
         'from the end, optional length, in characters, no panic; (args) non-numeric, empty, fractional and huge arguments never reach a panic in SUBSTR, POWER, LOG, '
-        'FORMAT_TIME, BIN, ABS, LEAST, FORMAT_SIZE.',
+        'FORMAT_TIME, BIN, ABS, LEAST, FORMAT_SIZE. args_all now decides every scalar function: rand (documented panic on an empty range), base64, chrono accessors, chrono-english (Ok / Err), split_whitespace, case mapping, regex captures by name are contract-modelled instead of ending the path.',
    note=TRUST + 'The library routines themselves (to_lowercase, trim, replace, powf, ln, base64, human_time, wana_kana) are uninterpreted: the claim is which routine is applied to '
         'which argument in which order. Outside: BIN / HEX / OCT rendering (radix format directives), INITCAP, TO/FROM_BASE64, FORMAT_TIME rendering, YEAR/MONTH/DAY/DOW, '
         'composition through get_function_value (argument evaluation order), SUBSTR position 0 and positions beyond the string (not specified by the statement).',
@@ -241,7 +240,7 @@ CHECKS = {
         '(lexer_splits) eight queries (several roots, root options, functions, ORDER BY lists) as one argument and split into shell words at every subset of their whitespace '
         'positions — the subset is a solver bit-vector — are lexed identically; '
         '(parse_pairs) the real Parser::parse on pairs of lexem vectors (optional select, commas, bracket kind, letter case of `group`, option aliases, operator aliases, '
-        '`not like` vs `notlike`): structurally equal queries.',
+        '`not like` vs `notlike`): structurally equal queries. (case) every word the parser sees (column, function, operator word incl. BETWEEN / RX, root option, format, arithmetic word) one at a time in another letter case, and the optional brackets of argument-less functions, parse to the same Query.',
    note=TRUST + 'The two lexer families execute the lexer MIR on concrete words / queries (no symbolic input there: a finite list, stated in the evidence); invariance under every '
         'whitespace split point set is covered for the listed queries (lexer_splits: <= 5 / 8 free positions, every search-root word a shell word of its own, since fselect takes the '
         'rest of a shell word as the root path) and every case mask only for the listed spellings. DATE_ALIKE_REGEX.captures evaluated with Python re on concrete text.',
